@@ -110,6 +110,29 @@ def check_model(case):
             "target": {"max_evaluations": float(max(tr.per_call or [0]))}}
 
 
+def check_nonideal(case):
+    """Non-ideal process models (finite number of steps) under the same evaluation cap."""
+    from .. import procs
+
+    s = procs.setup(case)
+    try:
+        with Trace(s.pv, cap=CAP, keep=False):
+            dt = procs.step_length(case, s)
+    except EvaluationCap:
+        raise Violation("step-0 flux calculation of a %s case exceeded %d driving-force evaluations" % (case["kind"], CAP))
+    out, tr = run_capped(lambda: _unwrap(procs.run(case, s, dt)), s.pv, "%s model (%d steps)" % (case["kind"], case["steps"]), case)
+    return {"nontrivial": tr.calls >= 1 and tr.count >= 3 * tr.calls,
+            "classes": [case["kind"], case["model"], case["perm"]["mode"], "raised" if is_raised(out) else "returned"],
+            "target": {"max_evaluations": float(max(tr.per_call or [0]))}}
+
+
+def _unwrap(x):
+    """procs.run already wraps exceptions into Raised; run_capped expects a plain callable result."""
+    if is_raised(x):
+        raise x.exc
+    return x
+
+
 def _corpus():
     path = os.path.join(VERIF_ROOT, "corpus", "C10", "design_phase_cases.json")
     cases = []
@@ -131,4 +154,7 @@ PARTS = [
          floor={"quick": 300, "thorough": 10000}, corpus=_corpus(), shrink={"quick": False, "thorough": True}),
     Part("models", lambda tier: model_strategy(), check_model, {"quick": 1200, "thorough": 30000},
          floor={"quick": 60, "thorough": 1500}, shrink={"quick": False, "thorough": True}),
+    Part("non-ideal-models", lambda tier: __import__("pvverif.procs", fromlist=["x"]).process_case(
+        kinds=("nonideal-iso", "nonideal-noniso"), max_steps=6, modes=("temperature", "pressure", "temperature")), check_nonideal,
+         {"quick": 160, "thorough": 4000}, floor={"quick": 15, "thorough": 400}, shrink={"quick": False, "thorough": True}),
 ]
